@@ -554,6 +554,84 @@ func runIsoLDAP(creds string, sched []string) {
 	emit(line, strings.Join(parts, " "), verdict, len(names) > 1)
 }
 
+// runIsoFTP: items "<sess>:<CMD>:<param hex>"; the reply code of every step, and the directory a 250/257 reply names
+var ftpDirRe = regexp.MustCompile(`^(250 Directory changed to |257 )(.*)\r\n$`)
+
+func runIsoFTP(sched []string) {
+	lab := c03Lab()
+	dirs := hexList([]string{"/", "/iso1", "/iso2"})
+	line := "iso ftp " + dirs + " " + strings.Join(sched, " ")
+	s := lab.byNm["ftp"]
+	open := func(l *svcLab) (*stepConn, chan struct{}) {
+		c := newStepConn(&net.TCPAddr{IP: net.IPv4(10, 0, 0, 1), Port: s.port}, l.clientAddr(false))
+		d := make(chan struct{})
+		go func() { defer close(d); l.hc.VerifHandle(c) }()
+		c.quiesce(300 * time.Millisecond) // greeting
+		return c, d
+	}
+	send := func(c *stepConn, op []string) string {
+		cmd := op[0]
+		if p := string(unhx(op[1])); p != "" {
+			cmd += " " + p
+		}
+		c.push([]byte(cmd + "\r\n"))
+		out := string(c.quiesce(300 * time.Millisecond))
+		if len(out) < 3 {
+			return "none"
+		}
+		if m := ftpDirRe.FindStringSubmatch(out); m != nil {
+			return out[:3] + "/" + hx([]byte(m[2]))
+		}
+		return out[:3]
+	}
+	conns := map[string]*stepConn{}
+	dones := map[string]chan struct{}{}
+	views := map[string][]string{}
+	own := map[string][][]string{}
+	var names []string
+	for _, it := range sched {
+		p := strings.SplitN(it, ":", 3)
+		n := p[0]
+		if _, ok := conns[n]; !ok {
+			names = append(names, n)
+			conns[n], dones[n] = open(lab)
+		}
+		own[n] = append(own[n], p[1:])
+		views[n] = append(views[n], send(conns[n], p[1:]))
+	}
+	closeAll := func(cs map[string]*stepConn, ds map[string]chan struct{}) {
+		for n, c := range cs {
+			c.clientClose()
+			select {
+			case <-ds[n]:
+			case <-time.After(3 * time.Second):
+				c.Close()
+			}
+		}
+	}
+	closeAll(conns, dones)
+	verdict := "ok"
+	var parts []string
+	for _, n := range names {
+		parts = append(parts, n+"=["+strings.Join(views[n], ";")+"]")
+		fresh, err := newSvcLab("ftp")
+		if err != nil {
+			panic(err)
+		}
+		ftpSetup(fresh)
+		c, d := open(fresh)
+		var ref []string
+		for _, op := range own[n] {
+			ref = append(ref, send(c, op))
+		}
+		closeAll(map[string]*stepConn{n: c}, map[string]chan struct{}{n: d})
+		if strings.Join(ref, ";") != strings.Join(views[n], ";") && verdict == "ok" {
+			verdict = fmt.Sprintf("viol:session-depends-on-others:ftp: session %s gets the replies %s, alone on a fresh service %s", n, strings.Join(views[n], ";"), strings.Join(ref, ";"))
+		}
+	}
+	emit(line, strings.Join(parts, " "), verdict, len(names) > 1)
+}
+
 func hexDecode(s string) ([]byte, error) {
 	if s == "" {
 		return nil, nil
@@ -566,6 +644,8 @@ func init() {
 		f := strings.Fields(l)
 		if len(f) >= 3 && f[0] == "iso" && f[1] == "tftp" {
 			runIsoTFTP(f[2:])
+		} else if len(f) >= 4 && f[0] == "iso" && f[1] == "ftp" {
+			runIsoFTP(f[3:])
 		} else if len(f) >= 4 && f[0] == "iso" && f[1] == "ldap" {
 			runIsoLDAP(f[2], f[3:])
 		}
@@ -624,6 +704,37 @@ func genC03(tier string, seed uint64) {
 				earlier = append(earlier, sc[(k+1)%len(sc)])
 			}
 			runHist(svc, earlier, sc[0])
+		}
+	}
+	// ftp: login state and working directory per session, through the Lean session model too
+	fop := func(c, p string) string { return c + ":" + hx([]byte(p)) }
+	fsess := [][]string{
+		{fop("USER", "anonymous"), fop("PASS", "anonymous"), fop("CWD", "/iso1"), fop("PWD", ""), fop("CDUP", ""), fop("PWD", "")},
+		{fop("PWD", ""), fop("USER", "anonymous"), fop("PASS", "anonymous"), fop("PWD", ""), fop("CWD", "iso2"), fop("PWD", "")},
+		{fop("USER", "bob"), fop("PASS", "x"), fop("CWD", "/iso1"), fop("PWD", "")},
+		{fop("USER", "anonymous"), fop("PASS", "anonymous"), fop("CWD", "nope"), fop("CWD", "../.."), fop("xpwd", ""), fop("PWD", "")},
+	}
+	for a := 0; a < len(fsess); a++ {
+		for b := a + 1; b < len(fsess); b++ {
+			ils := interleavings([]int{len(fsess[a]), len(fsess[b])})
+			stride := len(ils)/10 + 1
+			if tier == "thorough" {
+				stride = len(ils)/150 + 1
+			}
+			for k := r.Intn(stride); k < len(ils); k += stride {
+				var sched []string
+				ia, ib := 0, 0
+				for _, w := range ils[k] {
+					if w == 0 {
+						sched = append(sched, "a:"+fsess[a][ia])
+						ia++
+					} else {
+						sched = append(sched, "b:"+fsess[b][ib])
+						ib++
+					}
+				}
+				runIsoFTP(sched)
+			}
 		}
 	}
 	// ldap: bind state per connection; every interleaving of two sessions, sampled three
